@@ -71,6 +71,7 @@ partial def sepBy {α : Type} (item : P α) (close : Char) : P (List α) := do
 
 partial def valueP : P V := do
   match ← next with
+  | 'n' => do pure (.node (← natP))
   | 'N' => pure .null
   | 'T' => pure (.bool true)
   | 'F' => pure (.bool false)
@@ -306,6 +307,7 @@ partial def showV : V → String
   | .int i => s!"I{i}"
   | .flt b => "D" ++ hex16 b
   | .str s => "S" ++ hexOfString s
+  | .node i => s!"n{i}"
   | v@(.nil) | v@(.cons ..) => "L[" ++ joinWith "," (v.toList.map showV) ++ "]"
   | v@(.mnil) | v@(.mcons ..) =>
     "M{" ++ joinWith "," (v.toProps.map (fun kv => s!"k{kv.1}:" ++ showV kv.2)) ++ "}"
